@@ -31,6 +31,7 @@ import (
 )
 
 type impWant struct {
+	errZ     bool
 	floatAs  string // Gallina type standing for float64 in this package ("" = Z, integer-valued scores)
 	join     bool // translate `if` by joining the assigned variables instead of duplicating what follows
 	dir, pkg string
@@ -50,6 +51,7 @@ var impWants = []impWant{
 		funcs: []string{"SubstitutionMatrix.Get", "decideOnStep", "traceAlignmentSteps", "Global",
 			"argmax", "traceAlignmentStepsLocal", "Local"}},
 	{dir: "formats/fasta", pkg: "fasta", funcs: []string{"Fasta.Write"}, join: true},
+	{dir: "formats/fasta", pkg: "fastard", funcs: []string{"reader.read"}, errZ: true},
 	{dir: "formats/fastq", pkg: "fastq", funcs: []string{"Fastq.Write"}, join: true},
 	{dir: "formats/bed", pkg: "bed", funcs: []string{"BED.Write", "parseLine"}, join: true},
 	{dir: "formats/newick", pkg: "newick", funcs: []string{"quoted", "nameFromText", "nameToText", "Node.traverse"}, floatAs: "F"},
@@ -63,6 +65,7 @@ type impFn struct {
 type opener struct{ open, close string }
 
 type loopCtx struct {
+	label string   // the label of this loop, if any
 	state string   // the tuple of state variables, as an expression (= as a pattern)
 	post  ast.Stmt // post statement of a 3-clause loop run by go_while
 }
@@ -88,6 +91,9 @@ type impTr struct {
 	fnName   string
 	join     bool
 	floatAs  string
+	errZ     bool // errors are Z codes (0 nil, 1 io.EOF, 2 other, 3 io.ErrUnexpectedEOF) instead of bools
+	stream   bool // the receiver is a reader over a *bufio.Reader: the stream state rd__ is threaded
+	label    string
 	results  *types.Tuple
 	loopVars []map[types.Object]bool
 }
@@ -148,6 +154,9 @@ func isError(ty types.Type) bool { return ty != nil && ty.String() == "error" }
 
 func (t *impTr) ty(ty types.Type) string {
 	if isError(ty) {
+		if t.errZ {
+			return "Z"
+		}
 		return "bool" // true: a non-nil error
 	}
 	if n, ok := ty.(*types.Named); ok {
@@ -203,6 +212,9 @@ func (t *impTr) ty(ty types.Type) string {
 
 func (t *impTr) zero(ty types.Type) string {
 	if isError(ty) {
+		if t.errZ {
+			return "0%Z"
+		}
 		return "false"
 	}
 	if n, ok := ty.(*types.Named); ok {
@@ -409,6 +421,14 @@ func (t *impTr) ex(e ast.Expr, pre *[]opener) string {
 	case *ast.BinaryExpr:
 		return t.binary(e, pre)
 	case *ast.SelectorExpr:
+		if o := t.info.Uses[e.Sel]; o != nil && o.Pkg() != nil && o.Pkg().Path() == "io" && t.errZ {
+			switch o.Name() {
+			case "EOF":
+				return "1%Z"
+			case "ErrUnexpectedEOF":
+				return "3%Z"
+			}
+		}
 		if sel, ok := t.info.Selections[e]; ok && sel.Kind() == types.FieldVal {
 			x := t.ex(e.X, pre)
 			rt := sel.Recv()
@@ -540,6 +560,20 @@ func (t *impTr) binary(e *ast.BinaryExpr, pre *[]opener) string {
 		return v
 	}
 	// comparison with nil
+	if id, ok := e.Y.(*ast.Ident); ok && id.Name == "nil" && (e.Op == token.EQL || e.Op == token.NEQ) && isError(lt) && t.errZ {
+		x := t.ex(e.X, pre)
+		if e.Op == token.EQL {
+			return "(Z.eqb " + x + " 0%Z)"
+		}
+		return "(negb (Z.eqb " + x + " 0%Z))"
+	}
+	if isError(lt) && t.errZ && (e.Op == token.EQL || e.Op == token.NEQ) {
+		a, b := t.ex(e.X, pre), t.ex(e.Y, pre)
+		if e.Op == token.EQL {
+			return fmt.Sprintf("(Z.eqb %s %s)", a, b)
+		}
+		return fmt.Sprintf("(negb (Z.eqb %s %s))", a, b)
+	}
 	if id, ok := e.Y.(*ast.Ident); ok && id.Name == "nil" && (e.Op == token.EQL || e.Op == token.NEQ) && isError(lt) {
 		x := t.ex(e.X, pre)
 		if e.Op == token.EQL {
@@ -754,6 +788,9 @@ func (t *impTr) call(e *ast.CallExpr, pre *[]opener) string {
 		full := obj.Pkg().Path() + "." + obj.Name()
 		switch full {
 		case "fmt.Errorf", "errors.New":
+			if t.errZ {
+				return "2%Z"
+			}
 			return "true"
 		case "strings.ContainsAny":
 			return fmt.Sprintf("(go_contains_any %s %s)", t.ex(e.Args[0], pre), t.ex(e.Args[1], pre))
@@ -832,10 +869,10 @@ func (t *impTr) closure(e ast.Expr) string {
 // assigned collects the variables declared outside n that n assigns (including through
 // an index or a field), in order of first appearance; the pseudo variable of the yielded
 // items is reported through the flag.
-func (t *impTr) assigned(n ast.Node) ([]types.Object, bool) {
+func (t *impTr) assigned(n ast.Node) ([]types.Object, int) {
 	var out []types.Object
 	seen := map[types.Object]bool{}
-	yields := false
+	yields := 0
 	add := func(e ast.Expr) {
 		for {
 			switch x := e.(type) {
@@ -884,10 +921,13 @@ func (t *impTr) assigned(n ast.Node) ([]types.Object, bool) {
 		case *ast.CallExpr:
 			if o := t.calleeObj(s.Fun); o != nil {
 				if t.yield != nil && o == t.yield {
-					yields = true
+					yields |= 1
 				}
 				if t.writer != nil && o.Pkg() != nil && o.Pkg().Path() == "fmt" && o.Name() == "Fprintf" {
-					yields = true
+					yields |= 1
+				}
+				if t.stream && isBufioMethod(o) {
+					yields |= 2
 				}
 				if o.Pkg() != nil {
 					switch o.Pkg().Path() + "." + o.Name() {
@@ -907,13 +947,25 @@ func (t *impTr) assigned(n ast.Node) ([]types.Object, bool) {
 	return out, yields
 }
 
-func (t *impTr) tuple(objs []types.Object, yields bool) string {
+func isBufioMethod(o types.Object) bool {
+	f, ok := o.(*types.Func)
+	if !ok {
+		return false
+	}
+	sig := f.Type().(*types.Signature)
+	return sig.Recv() != nil && strings.HasSuffix(sig.Recv().Type().String(), "bufio.Reader")
+}
+
+func (t *impTr) tuple(objs []types.Object, yields int) string {
 	var names []string
 	for _, o := range objs {
 		names = append(names, t.nameOf(o))
 	}
-	if yields {
+	if yields&1 != 0 {
 		names = append(names, "out__")
+	}
+	if yields&2 != 0 {
+		names = append(names, "rd__")
 	}
 	switch len(names) {
 	case 0:
@@ -1019,8 +1071,17 @@ func (t *impTr) block(list []ast.Stmt, k string, lc *loopCtx) string {
 		return rest()
 	case *ast.BlockStmt:
 		return t.block(append(append([]ast.Stmt{}, s.List...), list[1:]...), k, lc)
+	case *ast.LabeledStmt:
+		if _, ok := s.Stmt.(*ast.ForStmt); !ok {
+			t.fail(s, "label on something other than a for loop")
+		}
+		t.label = s.Label.Name
+		return t.block(append([]ast.Stmt{s.Stmt}, list[1:]...), k, lc)
 	case *ast.DeclStmt:
 		gd := s.Decl.(*ast.GenDecl)
+		if gd.Tok == token.CONST {
+			return rest() // constants are folded by go/types
+		}
 		if gd.Tok != token.VAR {
 			t.fail(s, "unsupported declaration")
 		}
@@ -1083,6 +1144,10 @@ func (t *impTr) block(list []ast.Stmt, k string, lc *loopCtx) string {
 				}
 			}
 		}
+		if o := t.calleeObj(call.Fun); o != nil && t.stream && isBufioMethod(o) && o.Name() == "UnreadByte" {
+			pre = append(pre, opener{"let rd__ := go_unreadbyte rd__ in ", ""})
+			return wrapOpeners(pre, rest())
+		}
 		if o := t.calleeObj(call.Fun); o != nil && o.Pkg() != nil {
 			switch o.Pkg().Path() + "." + o.Name() {
 			case "sort.Ints":
@@ -1111,7 +1176,7 @@ func (t *impTr) block(list []ast.Stmt, k string, lc *loopCtx) string {
 		}
 		return wrapOpeners(pre, t.retWrap(strings.Join(vals, ", ")))
 	case *ast.BranchStmt:
-		if s.Label != nil || lc == nil {
+		if lc == nil || (s.Label != nil && (s.Label.Name != lc.label || lc.label == "")) {
 			t.fail(s, "unsupported branch")
 		}
 		switch s.Tok {
@@ -1281,6 +1346,13 @@ func (t *impTr) assign(s *ast.AssignStmt, pre *[]opener) {
 		if !ok {
 			t.fail(s, "unsupported multi-value assignment")
 		}
+		if o := t.calleeObj(call.Fun); o != nil && t.stream && isBufioMethod(o) && o.Name() == "ReadByte" && len(s.Lhs) == 2 {
+			b, e := t.fresh(), t.fresh()
+			*pre = append(*pre, opener{fmt.Sprintf("let '(%s, %s, rd__) := go_readbyte rd__ in ", b, e), ""})
+			t.store(s.Lhs[0], b, pre)
+			t.store(s.Lhs[1], e, pre)
+			return
+		}
 		if o := t.calleeObj(call.Fun); o != nil && o.Pkg() != nil && len(s.Lhs) == 2 {
 			lib := ""
 			switch o.Pkg().Path() + "." + o.Name() {
@@ -1403,6 +1475,8 @@ func (t *impTr) rangeStmt(s *ast.RangeStmt, rest func() string) string {
 }
 
 func (t *impTr) forStmt(s *ast.ForStmt, rest func() string) string {
+	label := t.label
+	t.label = ""
 	objs, yields := t.assigned(s.Body)
 	// counted shapes
 	if as, ok := s.Init.(*ast.AssignStmt); ok && as.Tok == token.DEFINE && len(as.Lhs) == 1 && s.Cond != nil && s.Post != nil {
@@ -1445,6 +1519,10 @@ func (t *impTr) forStmt(s *ast.ForStmt, rest func() string) string {
 					initObjs = append(initObjs, t.info.Defs[id])
 				}
 			}
+		} else if ok && as.Tok == token.ASSIGN {
+			// the variables are outer ones: they enter the state through the post statement or the body
+			_, f := t.assigned(s.Init)
+			yields |= f
 		} else {
 			t.fail(s, "unsupported loop initialisation")
 		}
@@ -1462,7 +1540,8 @@ func (t *impTr) forStmt(s *ast.ForStmt, rest func() string) string {
 		}
 	}
 	if s.Post != nil {
-		po, _ := t.assigned(s.Post)
+		po, pf := t.assigned(s.Post)
+		yields |= pf
 		for _, o := range po {
 			dup := false
 			for _, p := range all {
@@ -1486,7 +1565,7 @@ func (t *impTr) forStmt(s *ast.ForStmt, rest func() string) string {
 	if s.Post != nil {
 		end = t.block([]ast.Stmt{s.Post}, "Next "+state, nil)
 	}
-	body := t.block(s.Body.List, end, &loopCtx{state: state, post: s.Post})
+	body := t.block(s.Body.List, end, &loopCtx{state: state, post: s.Post, label: label})
 	loop := fmt.Sprintf("after (go_while fuel %s (fun %s => %s) %s) (fun %s => %s)", cond, pat(state), body, state, pat(state), rest())
 	if s.Init != nil {
 		return t.block([]ast.Stmt{s.Init}, loop, nil)
@@ -1545,10 +1624,23 @@ func (t *impTr) function(fd *ast.FuncDecl, coqName string) *impFn {
 	t.yield = nil
 	t.fnName = fd.Name.Name
 	var params []string
+	t.stream = false
 	addParam := func(n *ast.Ident) {
 		o := t.info.Defs[n]
 		if o.Type().String() == "io.Writer" {
 			return // the writer is the list of emitted chunks
+		}
+		if p, ok := o.Type().Underlying().(*types.Pointer); ok {
+			if st, ok := p.Elem().Underlying().(*types.Struct); ok {
+				for i := 0; i < st.NumFields(); i++ {
+					if strings.HasSuffix(st.Field(i).Type().String(), "bufio.Reader") {
+						// a reader object: its *bufio.Reader is the threaded stream state rd__
+						t.stream = true
+						params = append(params, "(rd__ : go_stream)")
+						return
+					}
+				}
+			}
 		}
 		params = append(params, fmt.Sprintf("(%s : %s)", t.nameOf(o), t.ty(o.Type())))
 	}
@@ -1642,6 +1734,14 @@ func (t *impTr) function(fd *ast.FuncDecl, coqName string) *impFn {
 			}
 			return "Ret (" + v + ")"
 		}
+		if t.stream {
+			inner := t.retWrap
+			t.retWrap = func(v string) string {
+				r := inner(v) // "Ret (...)" or "Ret tt"
+				return "Ret (rd__, " + strings.TrimPrefix(r, "Ret ") + ")"
+			}
+			rt = "(go_stream * " + rt + ")"
+		}
 		text = wrapOpeners(pre, t.block(body, end, nil))
 	}
 	fn := &impFn{name: coqName, fuel: t.fuel}
@@ -1695,7 +1795,7 @@ func genImp(repo, out string) {
 			panic(fmt.Sprintf("type-checking %s: %v", want.dir, err))
 		}
 		t := &impTr{pkg: want.pkg, info: info, fset: fset, fns: map[types.Object]*impFn{}, globals: want.globals,
-			records: map[string]bool{}, join: want.join, floatAs: want.floatAs}
+			records: map[string]bool{}, join: want.join, floatAs: want.floatAs, errZ: want.errZ}
 		fmt.Fprintf(sb, "(* ---- package %s ---- *)\n", want.dir)
 		for _, fname := range want.funcs {
 			recv, name := "", fname
